@@ -147,7 +147,7 @@ const emptyHash = "sha256:e3b0c44298fc1c149afbf4c8996fb92427ae41e4649b934ca49599
 // if data is nil, that the descriptor looks sane.
 func CheckDescriptor(desc ociregistry.Descriptor, data []byte) error {
 	if err := desc.Digest.Validate(); err != nil {
-		return fmt.Errorf("invalid digest: %v", err)
+		return fmt.Errorf("invalid digest: %v: %w", err, ociregistry.ErrDigestInvalid)
 	}
 	if data != nil {
 		if digest.FromBytes(data) != desc.Digest {
